@@ -41,8 +41,8 @@ impl TopicCache {
       changes: self.changes.iter().map(|(t, c)| change_view(*t, c)).collect(),
       reliable_before: self
         .received_reliably_before
-        .iter()
-        .map(|(g, s)| (g.to_bytes(), i64::from(*s)))
+        .keys()
+        .map(|g| (g.to_bytes(), i64::from(self.reliable_before(*g))))
         .collect(),
     }
   }
